@@ -462,14 +462,16 @@ def oracle_seq(p):
                     pass
         elif what == "fail":
             N = int(op[1])
+            # requests outside the domain (rejected, or answered with garbage, by the unchanged code): whatever they do is ignored,
+            # but they must leave the routine usable for the valid calls that follow (a caller's try/except)
+            bad = {"NWhalf": (N, N / 2.0), "NWnone": (N, None), "kbig": (N, 2, N + 1), "khuge": (N, 2, 4 * N), "kzero": (N, 2, 0),
+                   "kneg": (N, 2, -1), "kfloat": (N, 2, 2.5), "NWneg": (N, -1, 2)}[op[2]]
             try:
-                if op[2] == "NWhalf":
-                    dpss(N, N / 2.0)
-                else:
-                    dpss(N, None)
-            except (AssertionError, TypeError, ValueError):
+                with np.errstate(all="ignore"):
+                    dpss(*bad)
+            except Exception:
                 pass
-            hist.append("dpss(%d, %s) (out of domain)" % (N, "N/2" if op[2] == "NWhalf" else "None"))
+            hist.append("dpss%r (out of domain)" % (bad,))
         else:
             raise ValueError("unknown step %r" % (op,))
     if nmis > 1:
@@ -497,7 +499,7 @@ def _seq_ops(rng, N, NW, k, mods, between=None, twice_first=False, neighbours=Tr
     if between in ("pmtm", "mt"):
         ops.append([between, N, NW, k, method, EIGMODS[rng.randrange(len(EIGMODS))] if rng.randrange(2) else None])
     elif between == "fail":
-        ops.append(["fail", N, ("NWhalf", "NWnone")[rng.randrange(2)]])
+        ops.append(["fail", N, ("NWhalf", "NWnone", "kbig", "khuge", "kzero", "kneg", "kfloat", "NWneg")[rng.randrange(8)]])
     ops.append(["call", N, NW, k, "plain"])
     # the same (N, NW, resolved k) spelled differently: default k <-> the number it resolves to, other argument types
     kdef = int(max(min(round(2 * NW), N), 1))
@@ -699,6 +701,9 @@ def gen(rng, nrng, tier):
             (100, 3.3, None, [], "pmtm", False, None),          # nothing but pmtm's own return value is edited
             (20, 2.0, 1, ["bump"], "mt", True, None)):
         ops = _seq_ops(rng, N, NW, k, mods, between, twice, True, form2)
+        if between == "fail":
+            # fixed: a request for more tapers than samples in the middle of the history
+            ops = [(op[:2] + ["kbig"]) if op[0] == "fail" else op for op in ops]
         if not mods:
             ops = [op[:5] + ["eig2"] if op[0] in ("pmtm", "mt") else op for op in ops]
         yield ("dpss_seq", {"N": N, "NW": NW, "k": k, "ops": ops})
